@@ -1,2 +1,162 @@
--- stub: replaced by the component's line-protocol driver
-def main : IO Unit := pure ()
+import CelmaVerif.Base.Proto
+import CelmaVerif.Model.Log
+/- line-protocol driver for the log routing / filter component (C14); see harness/log_filters.cpp
+   for the operations -/
+open CelmaVerif CelmaVerif.Log CelmaVerif.Proto CelmaVerif.Generated.LogDefs
+
+def bytesToChars (bs : List Nat) : List Char := bs.map Char.ofNat
+
+/-- per destination the number of messages added by the operation -/
+def deliveries (before after : World) : String :=
+  let per (e e' : LogEntry) : List String :=
+    (e.log.dests.zip e'.log.dests).map fun (d, d') =>
+      s!" {e.name}/{d.name}={d'.received.length - d.received.length}"
+  "ok" ++ String.join ((before.logs.zip after.logs).map fun (e, e') => String.join (per e e'))
+
+def stateLine (w : World) : String :=
+  let dest (d : Dest) : String := s!"{d.name}:{d.received.length}"
+  let entry (e : LogEntry) : String := s!" {e.name}:{e.id}[{String.intercalate "," (e.log.dests.map dest)}]"
+  "ok" ++ String.join (w.logs.map entry)
+
+def parseTarget (s : String) : Target :=
+  match s.splitOn "/" with
+  | [l] => .log l
+  | l :: rest => .dest l (String.intercalate "/" rest)
+  | [] => .log s
+
+def parseLevel (s : String) : Option Nat :=
+  match s.toNat? with
+  | some n => if n ≤ 6 then some n else none
+  | none => none
+
+def parseIds (s : String) : Option Nat :=
+  match s.toNat? with
+  | some n => if n < 4294967296 then some n else none
+  | none => none
+
+def sendResult (w : World) : Res (World × Option Exc) → World × String
+  | .ok (w', none) => (w', deliveries w w')
+  | .ok (w', some e) => (w', s!"throw {e.name}")
+  | .throw e => (w, s!"throw {e.name}")
+  | .oob s => (w, s!"oob {s}")
+
+def retLine : Res (Ret Bool) → String
+  | .ok (.val b) => s!"ok discard={b}"
+  | .ok (.threw e) => s!"throw {e.name}"
+  | .throw e => s!"throw {e.name}"
+  | .oob s => s!"oob {s}"
+
+/-- all 49 messages in the order level-major; per destination one digit per message -/
+def sweep (w : World) (ids : Nat) : World × String :=
+  let msgs : List Msg := (List.range 7).flatMap fun lv => (List.range 7).map fun cl => ⟨lv, cl⟩
+  let ndest := (w.logs.map fun e => e.log.dests.length).sum
+  let init : Res (World × List (List Nat)) := .ok (w, List.replicate ndest [])
+  let r := msgs.foldl (fun acc m =>
+    match acc with
+    | .ok (w, cols) =>
+      match w.logIds ids m with
+      | .ok w' =>
+        let counts := (w.logs.zip w'.logs).flatMap fun (e, e') =>
+          (e.log.dests.zip e'.log.dests).map fun (d, d') => d'.received.length - d.received.length
+        .ok (w', (cols.zip counts).map fun (c, n) => (if n > 9 then 9 else n) :: c)
+      | .throw e => .throw e
+      | .oob s => .oob s
+    | other => other) init
+  match r with
+  | .ok (w', cols) =>
+    let names := w.logs.flatMap fun e => e.log.dests.map fun d => s!"{e.name}/{d.name}"
+    let col (c : List Nat) : String := String.ofList (c.reverse.map fun n => Char.ofNat (48 + n))
+    (w', "ok" ++ String.join ((names.zip cols).map fun (n, c) => s!" {n}={col c}"))
+  | .throw e => (w, s!"throw {e.name}")
+  | .oob s => (w, s!"oob {s}")
+
+def presweep (w : World) (ids : Nat) : String :=
+  let ch (lv : Nat) : Except String Char :=
+    match w.discardById ids lv with
+    | .ok (.val true) => .ok 't'
+    | .ok (.val false) => .ok 'f'
+    | .ok (.threw _) => .ok 'E'
+    | .throw _ => .ok 'E'
+    | .oob s => .error s
+  match (List.range 7).mapM ch with
+  | .ok cs => "ok " ++ String.ofList cs
+  | .error s => s!"oob {s}"
+
+def step (w : World) (line : String) : World × String :=
+  match tokens line with
+  | ["case", _] => (World.init, "ok")
+  | ["log", "new", name] =>
+    match w.findCreateLog name with
+    | (w', .val id) => (w', s!"ok id={id}")
+    | (w', .threw e) => (w', s!"throw {e.name}")
+  | ["dest", "add", l, d] =>
+    match w.addDest l d with
+    | some w' => (w', "ok")
+    | none => (w, "ok nolog")
+  | ["dest", "remove", l, d] =>
+    match w.removeDest l d with
+    | some w' => (w', "ok")
+    | none => (w, "ok nolog")
+  | ["filter", tgt, kind, arg] =>
+    let spec : Option FilterSpec :=
+      match kind with
+      | "max" => (parseLevel arg).map .max
+      | "min" => (parseLevel arg).map .min
+      | "level" => (parseLevel arg).map .level
+      | "classes" => (hexDecode arg).map fun bs => .classes (bytesToChars bs)
+      | _ => none
+    match spec with
+    | none => (w, "bad-op")
+    | some s =>
+      match w.setFilter (parseTarget tgt) s with
+      | .ok (w', .done) => (w', "ok")
+      | .ok (w', .nolog) => (w', "ok nolog")
+      | .ok (w', .threw e) => (w', s!"throw {e.name}")
+      | .throw e => (w, s!"throw {e.name}")
+      | .oob t => (w, s!"oob {t}")
+  | ["policy", p] =>
+    match p with
+    | "ignore" => (w.setPolicy .ignore, "ok")
+    | "replace" => (w.setPolicy .replace, "ok")
+    | "exception" => (w.setPolicy .exception, "ok")
+    | _ => (w, "bad-op")
+  | ["send", ids, lv, cl] =>
+    match parseIds ids, parseLevel lv, parseLevel cl with
+    | some ids, some lv, some cl =>
+      sendResult w (match w.logIds ids ⟨lv, cl⟩ with
+        | .ok w' => .ok (w', none) | .throw e => .throw e | .oob s => .oob s)
+    | _, _, _ => (w, "bad-op")
+  | ["sendname", name, lv, cl] =>
+    match parseLevel lv, parseLevel cl with
+    | some lv, some cl =>
+      sendResult w (match w.logName name ⟨lv, cl⟩ with
+        | .ok w' => .ok (w', none) | .throw e => .throw e | .oob s => .oob s)
+    | _, _ => (w, "bad-op")
+  | ["macro", ids, lv, cl] =>
+    match parseIds ids, parseLevel lv, parseLevel cl with
+    | some ids, some lv, some cl => sendResult w (w.macroSend ids ⟨lv, cl⟩)
+    | _, _, _ => (w, "bad-op")
+  | ["precheck", ids, lv] =>
+    match parseIds ids, parseLevel lv with
+    | some ids, some lv => (w, retLine (w.discardById ids lv))
+    | _, _ => (w, "bad-op")
+  | ["precheckname", name, lv] =>
+    match parseLevel lv with
+    | some lv => (w, retLine (w.discardByName name lv))
+    | none => (w, "bad-op")
+  | ["sweep", ids] =>
+    match parseIds ids with
+    | some ids => sweep w ids
+    | none => (w, "bad-op")
+  | ["presweep", ids] =>
+    match parseIds ids with
+    | some ids => (w, presweep w ids)
+    | none => (w, "bad-op")
+  | ["parse", hx] =>
+    match hexDecode hx with
+    | some bs => (w, s!"ok class={text2logClass (cstr (bytesToChars bs))}")
+    | none => (w, "bad-op")
+  | ["state"] => (w, stateLine w)
+  | _ => (w, "bad-op")
+
+def main : IO Unit := run World.init step
